@@ -103,6 +103,7 @@ def run(rep, prog, tier):
         sm = eff.summ[q]
         muts = {p_: s_ for p_, s_ in sm.mut.items() if p_ not in ('schematic', 'element', 'se') or q.endswith('::fill') and p_ == 'elements'}
         muts = {p_: s_ for p_, s_ in muts.items() if not (p_ == 'element' and q.endswith(('apply_direction_and_length', 'apply_position')))}
+        if getattr(f.node, 'name', '').startswith('_') and not getattr(f.node, 'name', '').startswith('__'): muts = {}        # private helper: charged to its public callers
         if muts:
             p_, s_ = sorted(muts.items())[0]
             rep.ob('R15.pure', f'{q}({p_})', False, f'the declarative description is edited while it is read (`{p_}`): {s_} -- a second use of the same description builds another drawing', f.site)
